@@ -365,7 +365,11 @@ def check_apm_max(ctx, cursor):
             ctx.require(q, z3.And(t != 0, tok == t, pres(q.mem, tok) == 1, val(q.mem, tok) == ptr), "the only unused token is issued")
         elif q.status == "abort":
             ctx.require(q, t == 0, "registration aborts only when every token up to the limit is in use")
-    ctx.only(paths, "ret", "abort")
+        elif q.status == "unwind":
+            # the search reads a table of 255 entries with an 8-bit index and does not modify it: a block visited more
+            # than 1200 times means the same (index, table) state recurs - the search does not terminate
+            ctx.fail(q, "the search for a free token does not terminate (more than 1200 iterations over a 255-entry table): %s" % q.info)
+    ctx.only(paths, "ret", "abort", "unwind")
     ctx.expect(paths, ret=1, abort=1)
 
 
